@@ -8,7 +8,8 @@ Open Scope Q_scope.
 (* exact comparison, or (only where the implementation divides / rounds a non-dyadic product: constant_liar_mean values,
    weighted noise sums) relative 1e-12 *)
 Definition rtol : Q := 1 # 1000000000000.
-Definition qclose (a b : Q) : bool := Qle_bool (Qabs (a - b)) (rtol * Qabs b).
+(* relative to 1 + |b|: a mean that is exactly 0 in the model comes out as ~1e-16 in doubles (data of the generator are of size 1 .. 100) *)
+Definition qclose (a b : Q) : bool := Qle_bool (Qabs (a - b)) (rtol * (1 + Qabs b)).
 Definition q_eqb (tol : bool) (a b : Q) : bool := if tol then qclose a b else Qeq_bool a b.
 Definition v_eqb (tol : bool) := list_eqb (q_eqb tol).
 Definition err_eqb (a b : err) : bool :=
